@@ -39,20 +39,64 @@ def _stmt(n):
     return n
 
 
+class _RepStmt:
+    def __init__(self, bound_variable, bound_type):
+        self.bound_variable = bound_variable
+        self.bound_type = bound_type
+
+
+class _RepTestCase:
+    def __init__(self, stmts):
+        self._stmts = stmts
+
+    def statements(self):
+        return list(self._stmts)
+
+    def size(self):
+        return len(self._stmts)
+
+
+def _find_variable_bounded(ctx, repo, fn) -> None:
+    """The candidates offered for a statement built at `position` are the matching variables bound
+    at an index < position - all of them and nothing else."""
+    from sa.engine import peval
+
+    stmts = [_RepStmt("int_0", int), _RepStmt(None, None), _RepStmt("str_0", str), _RepStmt("bool_0", bool), _RepStmt("int_1", int), _RepStmt("list_0", list), _RepStmt("int_2", int)]
+    test_case = _RepTestCase(stmts)
+    for raw in (int, str):
+        for position in range(len(stmts) + 1):
+            offered: list = []
+
+            def choice(seq, _o=offered):
+                _o.append(list(seq))
+                return seq[0]
+
+            want = [s.bound_variable for s in stmts[:position] if s.bound_variable is not None and issubclass(s.bound_type, raw)]
+            it = peval.Interp(resolver=peval.repo_resolver(repo), native_types=(_RepStmt, _RepTestCase), externs={"randomness.choice": choice}, consts={"raw": raw})
+            label = f"[{raw.__name__} @ {position}]"
+            try:
+                got = it.run_function(fn, [test_case, raw, position], {}, repo.module("pynguin.testcase.testfactory"))
+            except (peval.Undecided, peval.Raises) as exc:
+                ctx.undecide("C15.bound-before-use", fn, f"{label} {exc}")
+                continue
+            cands = offered[0] if offered else ([] if got is None else [got])
+            late = [v for v in cands if v not in want]
+            ctx.check("C15.bound-before-use", fn, sorted(cands) == sorted(want), f"_find_variable_of_type(test case, {raw.__name__}, position={position}) offers {cands}, the variables of that type bound before the position are {want}" + (f": {late} " + "is" * (len(late) == 1) + "are" * (len(late) != 1) + " bound at or after the position - the statement built there reads a name that is not defined yet (NameError when the test runs)" if late else ": reusable variables are withheld"), what=f"{label} candidates == variables bound before the position", stmt=label)
+
+
 def check(ctx) -> None:
     repo = ctx.repo
     ctx.rule("C15.writers", "WHO-MAY: the private representation of TestCase / Statement is written only in testcase/testcase.py", floor=10)
     ctx.rule("C15.mutators", "MUST-PASS: every TestCase method that changes _statements reaches `_code_cache = None` and `_rebuild_registry()` / `_register()` on every path to a normal exit", floor=7)
     ctx.rule("C15.read-cache", "a statement's cached read set is copied only to a statement built with the same node object", floor=1)
     ctx.rule("C15.names", "every Statement built inside TestCase binds next_var_name(), the binding of the statement it is rebuilt from, or nothing", floor=3)
-    ctx.rule("C15.bound-before-use", "WHO-MAY: the test factory picks existing variables for a statement at a position only through the position-bounded scan (_find_variable_of_type); the whole-test-case type registry is not consulted there", floor=1)
+    ctx.rule("C15.bound-before-use", "ABSINT + WHO-MAY: _find_variable_of_type, interpreted over representative test cases, offers exactly the matching variables bound before `position`; the test factory consults the whole-test-case type registry nowhere", floor=6)
     tf_ = repo.module("pynguin.testcase.testfactory")
     fv_ = tf_.functions.get("TestFactory._find_variable_of_type")
     if fv_ is None:
         raise AnalysisError("anchor vanished: TestFactory._find_variable_of_type")
     ctx.analysed(fv_)
-    bounded_ = any(isinstance(n_, ast.If) and re.fullmatch(r"idx >= position", norm(n_.test)) and any(isinstance(b_, ast.Break) for b_ in n_.body) for n_ in own_nodes(fv_))
-    ctx.check("C15.bound-before-use", fv_, bounded_, "_find_variable_of_type no longer stops its scan at `position`: a statement may be given an operand that is bound later in the test case (NameError when the test runs)", what="_find_variable_of_type scans statements before `position` only", stmt="[position bound]")
+    _find_variable_bounded(ctx, repo, fv_)
     for qn_, fn_ in tf_.functions.items():
         for c_ in own_nodes(fn_):
             if isinstance(c_, ast.Call) and isinstance(c_.func, ast.Attribute) and c_.func.attr == "variables_of_type" or (isinstance(c_, ast.Attribute) and c_.attr == "_type_registry"):
